@@ -53,6 +53,13 @@ def run(ctx):
         kind = str(rng.choice(['reroot', 'reroot', 'cut', 'prune_method', 'subset', 'subset', 'subset_pf']))
         with F.backend(be):
             x = F.mk_neuron(f, connectors=cn, tags=dict(tagmap) if tagmap else None, radius=radius)
+            if rng.random() < 0.5:
+                # the neuron has been used before: its graph representations are cached (copies then hold views of them)
+                _ = x.graph
+                try:
+                    _ = x.igraph
+                except Exception:
+                    pass
             prev = F.table_of(x)
             prev_pay = payload(x)
             prev_conn = canon_conn(x)
